@@ -226,6 +226,47 @@ def build_mk(t, prefix, fixed_name=None):
     return mk_bitstruct(name, fields)
 
 
+_DECL_NS = {}
+
+
+def declare_src(t, name):
+    """Declare struct shape t through `@bitstruct` on class statements executed NOW; every struct class of
+    the type (inner ones first) is a `class <name>:` statement, i.e. all of them share __name__ == name."""
+    if not _DECL_NS:
+        exec("from pymtl3.datatypes import *\nfrom pymtl3.datatypes.bits_import import mk_bits\n", _DECL_NS)
+    lines = []
+    cnt = [0]
+
+    def ty(x):
+        if x["k"] == "leaf":
+            return _bits_expr(x["w"])
+        if x["k"] == "struct":
+            return emit(x)
+        inner = ty(x["t"])
+        return "[" + ", ".join([inner] * x["n"]) + "]" if x["n"] <= 4 else "[%s for _ in range(%d)]" % (inner, x["n"])
+
+    def emit(x):
+        exprs = [(f["n"], ty(f["t"])) for f in x["fs"]]
+        cnt[0] += 1
+        alias = "_decl_t%d" % cnt[0]
+        lines.append("@bitstruct")
+        lines.append("class %s:" % name)
+        for n, e in exprs:
+            lines.append("  %s: %s" % (n, e))
+        lines.append("%s = %s" % (alias, name))
+        return alias
+
+    top = emit(t)
+    ns = dict(_DECL_NS)
+    exec(compile("\n".join(lines) + "\n", "<c06 declaration of %s>" % name, "exec"), ns)
+    return ns[top]
+
+
+def declare(t, name, route):
+    """the class pymtl3 returns for declaring shape t under class name `name` ("src": @bitstruct, "mk": mk_bitstruct)"""
+    return declare_src(t, name) if route == "src" else build_mk(t, name, name)
+
+
 # --------------------------------------------------------------------------------------
 # values
 # --------------------------------------------------------------------------------------
@@ -313,6 +354,8 @@ def apply_action(objs, cls, a):
     op, d = a["op"], a["d"]
     if op == "frombits":
         objs[d] = cls.from_bits(mkbits(a["b"]))
+    elif op == "default":
+        objs[d] = cls()
     elif op == "assign":
         objs[d] = operator.imatmul(objs[d], objs[a["s"]])
     elif op == "assignbits":
